@@ -231,6 +231,20 @@ Definition vrf_verify_sortition PK Proof p2h := vrf_verify_sortition_with PK Pro
 Definition vrf_verify_priority PK Proof p2h keccak :=
   vrf_verify_priority_with PK Proof p2h keccak choose.
 
+(* ---- Server.verifyPriority (sortition_verifier.go): the gossip path ------------ *)
+(* "isValid, err := VrfVerifyPriority(...); if err != nil || !isValid { log; return err }":
+   the message is accepted iff the returned error is nil.  [repaired = true] is the
+   code as it is (commit 14c9452: an error is returned for (false, nil) too);
+   [repaired = false] is the function before that commit, which accepted a
+   priority that is not the computed maximum - kept for the record of the finding
+   and so that an unrepaired tree can still be compared (the harness probes). *)
+Definition server_verify_priority (repaired : bool) (r : pv) : bool :=
+  match r with
+  | PvResult true => true
+  | PvResult false => negb repaired
+  | _ => false
+  end.
+
 (* ---- decoding of a VRF proof (secp256k1VRF.go: ProofToHash) ------------------- *)
 (* proof = s (32 bytes) ++ t (32 bytes) ++ encoding of the VRF point (65 bytes).
    Byte-level parsing is modelled exactly; the group arithmetic is abstract:
@@ -510,7 +524,10 @@ Inductive case :=
    found at bytes 65..96 / 97..128, dl = the group-level check on them, sha =
    sha256 of bytes 64..128 (all three computed by the harness with the curve
    library), got = what ProofToHash returned *)
-| CProof (proof : list Z) (oc dl : bool) (sha : Z) (got : option Z).
+| CProof (proof : list Z) (oc dl : bool) (sha : Z) (got : option Z)
+(* Server.verifyPriority on a message whose VrfVerifyPriority verdict is [code]
+   (pv_code); repaired = what the harness' probe saw; got: 0 accepted, 1 rejected *)
+| CServerPrio (repaired : bool) (code : Z) (got : Z).
 
 Definition tbl_fun (tbl : list bool) (h : Z) : bool :=
   if h <? 0 then false else nth (Z.to_nat h) tbl true.
@@ -636,6 +653,11 @@ Definition case_ok (rep : bool) (c : case) : bool :=
   | CProof proof oc dl sha got =>
     opt_Z_eqb (proof_to_hash_bytes unit secp256k1_p (fun _ _ => oc) (fun _ _ _ _ _ _ _ => dl)
                                    (fun _ => sha) tt [] proof) got
+  | CServerPrio repaired code got =>
+    let r := if code =? 0 then PvResult true else if code =? 6 then PvResult false
+             else if code =? 1 then PvTotalZero else if code =? 2 then PvBadProof
+             else if code =? 4 then PvWrongSeats else PvPanic in
+    (if server_verify_priority repaired r then 0 else 1) =? got
   end.
 
 Fixpoint mismatches_from (rep : bool) (i : N) (l : list case) : list N :=
